@@ -108,6 +108,8 @@ def impl_pair(cfg1, o1, cfg2, o2, rng, hook=None):
         out += [(0, out[4]), (0, out[5]), (0, out[6]), (0, out[7])]
         # and of the FlattenUpTo loop
         out.append(out[8])
+        # and of the BroadcastToCommonSuffix walk
+        out += [out[9], out[10]]
         if hook is not None:
             hook(t1, t2, s1, s2, kw1, kw2, out)
         return tuple(out)
